@@ -10,7 +10,8 @@ LEVEL = 'exploration'
 RULE = ('Hypothesis-generated episodes on the cluster simulator (2-4 real instances brought to every Supvisors state by a '
         'real history: late boots, crashes, restarts, conflicts created by direct Supervisor starts with the USER '
         'conciliation, slow stops during restart / shutdown, USER synchronisation) with storms of XML-RPCs on Master and '
-        'non-Master instances: every public method with valid and invalid parameter values (unknown application / '
+        'non-Master instances, and with whole rows of the method x state matrix (rpc_sweep: every method on one instance '
+        'within the same second, conflicts built on purpose to hold CONCILIATION): every public method with valid and invalid parameter values (unknown application / '
         'process / program / instance names, unknown strategy strings and integers, unmanaged applications). Oracle per '
         'call, from a golden table transcribed from the property statement and docs/xml_rpc.rst (never from _check_*): '
         'outside the documented states the call raises BAD_SUPVISORS_STATE; inside them it does not (except the '
@@ -103,6 +104,38 @@ class PDist(P):
     managed = 1.0
     op_rate = 0.7
     steps_max = 40
+
+
+class PSweepLate(PLate):
+    """Rows of the method x state matrix in the late states: conflicts are built on purpose (a child truly RUNNING is
+    started directly on another instance, USER conciliation keeps them) and every XML-RPC is called on one instance
+    within the same second, before and after a restart / shutdown whose stops last."""
+    proc_ops = ('make_conflict', 'make_conflict', 'exit')
+    fault_ops = ()
+    user_ops = ('rpc_sweep',) * 14 + ('rpc_end',)
+    sweep_states = (('CONCILIATION',), ('CONCILIATION',), ('CONCILIATION', 'RESTARTING', 'SHUTTING_DOWN', 'FINAL'),
+                    ('RESTARTING', 'SHUTTING_DOWN', 'FINAL'))
+    known_subsets = False
+    managed = 0.85
+    op_rate = 0.6
+    ops_per_step_max = 2
+    steps_max = 30
+    hold_rate = 0.0
+    inject_rate = 0.0
+
+
+class PSweepEarly(P):
+    """Rows of the matrix in the early states (OFF, SYNCHRONIZATION, ELECTION, DISTRIBUTION with slow children)."""
+    warmups = (0, 3, 8, 14, 18, 22)
+    startsecs = (6, 12)
+    sequences = (1, 2, 3)
+    fault_ops = ('crash', 'boot')
+    proc_ops = ()
+    user_ops = ('rpc_sweep', 'rpc_sweep', 'rpc_sweep', 'end_sync')
+    op_rate = 0.5
+    ops_per_step_max = 1
+    steps_max = 30
+    managed = 1.0
 
 
 class GateMonitor(Monitor):
@@ -269,7 +302,7 @@ def classify(runner, monitors, episode):
     return nontrivial, classes
 
 
-CHECK = EpisodeCheck(PROPERTY_ID, st.one_of(episode_st(P), episode_st(PLate), episode_st(PDist)), make_monitors, evaluate, classify, quick=1200, thorough=16000,
+CHECK = EpisodeCheck(PROPERTY_ID, st.one_of(episode_st(P), episode_st(PLate), episode_st(PDist), episode_st(PSweepLate), episode_st(PSweepEarly)), make_monitors, evaluate, classify, quick=1200, thorough=16000,
                      suffix_kwargs={'ticks': 4, 'boot_dead': False})
 
 
